@@ -79,9 +79,22 @@ pub struct Prot {
 
 /// Draw a protected header: decoded from wire (styled bytes), built empty, or built non-empty.
 pub fn gen_prot(g: &mut Gen, ctx: &mut Ctx) -> Result<Prot, String> {
-    let content = match g.weighted(&[2, 8]) {
+    let content = match g.weighted(&[2, 8, 1]) {
         0 => None,
-        _ => Some(gen_header(g, &mut Faults::none(), 1)),
+        1 => Some(gen_header(g, &mut Faults::none(), 1)),
+        _ => {
+            // a header whose deterministic encoding has a length on a CBOR length-class boundary:
+            // {4: h'..n bytes..'} encodes to 2 + head(n) + n bytes
+            let target = *g.pick(&[23usize, 24, 25, 255, 256, 257, 65535, 65536, 65537]);
+            let n = match target {
+                0..=25 => target - 3,
+                26..=258 => target - 4,
+                259..=65538 => target - 5,
+                _ => target - 7,
+            };
+            ctx.classf(format!("protected:encoded-length-{}", target));
+            Some(Item::Map(vec![(Item::Int(4), Item::Bytes((0..n).map(|i| (i * 7 + 1) as u8).collect()))]))
+        }
     };
     gen_prot_with(g, ctx, content)
 }
